@@ -161,3 +161,11 @@ META["C01"] = dict(
     note="Trusts the independent DAG walk and the blockstore comparison; the premise (initiator Completed after acceptance) is checked, not assumed.",
     technique="runtime monitoring: end-to-end oracle at quiescence (virtual time) over the real two-node stack with injected link cuts, limits, pauses and finalization",
 )
+
+META["C20"] = dict(
+    text=("Held on K seeded stress schedules per workload with the race detector watching every access the workloads reach and a deadlock detector confirming hangs from "
+          "goroutine dumps; the evidence lists operations per kind, re-entrant calls and raw/de-duplicated race reports. Absence of reports covers the executed interleavings only."),
+    design_ref="DESIGN.md §2 C20",
+    note="Go race detector (happens-before based, no false positives, misses races the schedules do not exercise); deadlock confirmation needs two identical parked dumps.",
+    technique="Go race detector over multi-goroutine stress workloads + goroutine-dump deadlock detector (real clock) + quiescence-based hang detection (virtual clock) for the end-to-end part",
+)
